@@ -5,9 +5,14 @@
    minimum total weight among such" is a hypothesis on its answer (its contract, as in C13).
 
    A matching is given with the weight of each of its edges ([wmates]); [drawn] says that every triple is an edge of
-   the graph with exactly that weight (in either orientation), so the total is the weight the matcher minimises.
+   the graph with exactly that weight (in either orientation), so the total is the weight the matcher minimises
+   ([planar_mwpm_corrects]).  The same theorem for matchings given as bare pairs and weighed by looking the pair up in
+   the graph is [planar_mwpm_corrects_mates] (the two formulations agree because every entry of the decoder's graph
+   carries the decoder's symmetric distance between its ends: [graph_weights]); for the decoder as a function of an
+   external matcher that meets this contract it is [planar_mwpm_decode_corrects] (the graphs always have a perfect
+   matching: [planar_perfect_matching_exists]); PlanarMwpmBrute.v discharges the contract with an exhaustive matcher.
 
-   Proof: (1) [cheap_matching]: the defects of one lattice admit a perfect matching of the decoder's graph of total
+   Proof: (1) [cheap_matching]: the defects of one lattice have a perfect matching of the decoder's graph of total
    weight <= the number of qubits in the corresponding part of the error (one elementary pair per qubit —
    PlanarErrPairs.error_pairs — then MatchBound.matching_from_pairs with the taxi-cab metric, the boundary distance
    and the nearest-virtual-node key; the unused virtual nodes are paired off with weight 0);
@@ -612,6 +617,185 @@ Proof.
   - rewrite firstn_xorv. pose proof (count_true_xorv (firstn N r) (firstn N e)). unfold xweight, part in *. unfold tcap in *. lia.
   - rewrite skipn_xorv by lia. pose proof (count_true_xorv (skipn N r) (skipn N e)). unfold zweight, part in *. unfold tcap in *. lia.
 Qed.
+
+(* the same with the matchings given as bare pairs and weighed by the graph *)
+Theorem planar_mwpm_corrects_mates (e : bsf) (mp md : mates) :
+  length e = (N + N)%nat -> Z.of_nat (xweight e) <= tcap -> Z.of_nat (zweight e) <= tcap ->
+  let syn := syndrome_of STABS e in
+  min_matching (primal_graph rows cols syn) (primal_nodes rows cols syn) mp ->
+  min_matching (dual_graph rows cols syn) (dual_nodes rows cols syn) md ->
+  exists r, mwpm_recovery rows cols (mp ++ md) = Some r /\ length r = (N + N)%nat /\
+            syndrome_of STABS r = syn /\ in_spanP (N + N) STABS (xorv r e).
+Proof.
+  intros He Wx Wz syn Mp Md.
+  assert (Hdp : forall q, In q (primal_defects rows cols syn) -> In q PI /\ planar_is_primal q = true)
+    by (intros q Hq; apply primal_defects_char in Hq; tauto).
+  assert (Hdd : forall q, In q (dual_defects rows cols syn) -> In q PI /\ planar_is_primal q = false)
+    by (intros q Hq; apply dual_defects_char in Hq; tauto).
+  destruct (extra_primal_facts rows cols) as [Lep Iep]. destruct (extra_dual_facts rows cols) as [Led Ied].
+  destruct (min_matching_weighted true _ extra_primal Hdp Iep Lep mp Mp) as [Wp Ep].
+  destruct (min_matching_weighted false _ extra_dual Hdd Ied Led md Md) as [Wd Ed].
+  destruct (planar_mwpm_corrects e _ _ He Wx Wz Wp Wd) as (r & R). rewrite Ep, Ed in R. exists r. exact R.
+Qed.
+
+(* ... in particular for every error of weight <= t *)
+Corollary planar_mwpm_corrects_weight (e : bsf) (mwp mwd : wmates) :
+  length e = (N + N)%nat -> Z.of_nat (bsf_wt e) <= tcap ->
+  let syn := syndrome_of STABS e in
+  min_perfect_in (primal_graph rows cols syn) (primal_nodes rows cols syn) mwp ->
+  min_perfect_in (dual_graph rows cols syn) (dual_nodes rows cols syn) mwd ->
+  exists r, mwpm_recovery rows cols (unw mwp ++ unw mwd) = Some r /\ length r = (N + N)%nat /\
+            syndrome_of STABS r = syn /\ in_spanP (N + N) STABS (xorv r e).
+Proof.
+  intros He W. destruct (DistCSS.parts_weight N e ltac:(lia)) as (_ & _ & W1 & W2).
+  apply planar_mwpm_corrects; auto; unfold xweight, zweight; lia.
+Qed.
+
+(* the decoder's graphs always have a perfect matching, so a matcher that meets its contract has an answer *)
+Theorem planar_perfect_matching_exists (e : bsf) : length e = (N + N)%nat ->
+  let syn := syndrome_of STABS e in
+  (exists m, Permutation (ends2 m) (primal_nodes rows cols syn) /\ uses (primal_graph rows cols syn) m) /\
+  (exists m, Permutation (ends2 m) (dual_nodes rows cols syn) /\ uses (dual_graph rows cols syn) m).
+Proof.
+  intros He syn.
+  assert (Hdp : forall q, In q (primal_defects rows cols syn) -> In q PI /\ planar_is_primal q = true)
+    by (intros q Hq; apply primal_defects_char in Hq; tauto).
+  assert (Hdd : forall q, In q (dual_defects rows cols syn) -> In q PI /\ planar_is_primal q = false)
+    by (intros q Hq; apply dual_defects_char in Hq; tauto).
+  destruct (NoDup_defects e) as [Np Nd].
+  destruct (cheap_matching true _ extra_primal Hdp Np (not_instrip_extra_primal rows cols) e He (primal_defects_char e)) as (mp & [P1 D1] & _).
+  destruct (cheap_matching false _ extra_dual Hdd Nd (not_instrip_extra_dual rows cols) e He (dual_defects_char e)) as (md & [P2 D2] & _).
+  split; [exists (unw mp)|exists (unw md)]; (split; [assumption|now apply drawn_uses]).
+Qed.
 End Correct.
 
+(* ------------------------------------------------------------------ *)
+(** * The decoder as a function of an external matcher                  *)
+(* ------------------------------------------------------------------ *)
+Section WithMatcher.
+(* graphtools.mwpm, not modelled: graph and node list in, mates out *)
+Variable matcher : list wedge -> list idx -> mates.
+(* its contract (C13): on a graph that has a perfect matching it returns a perfect matching of minimum total weight *)
+Hypothesis matcher_contract : forall g nodes, (exists m, Permutation (ends2 m) nodes /\ uses g m) ->
+  min_matching g nodes (matcher g nodes).
+Definition planar_mwpm_decode (rows cols : Z) (syn : bsf) : option bsf :=
+  mwpm_recovery rows cols (matcher (primal_graph rows cols syn) (primal_nodes rows cols syn) ++
+                           matcher (dual_graph rows cols syn) (dual_nodes rows cols syn)).
+Theorem planar_mwpm_decode_corrects rows cols : 2 <= rows -> 2 <= cols -> forall e : bsf,
+  let n := planar_n rows cols in let S := stabs (planar_code rows cols) in
+  length e = (n + n)%nat ->
+  Z.of_nat (count_true (firstn n e)) <= (Z.min rows cols - 1) / 2 ->
+  Z.of_nat (count_true (skipn n e)) <= (Z.min rows cols - 1) / 2 ->
+  exists r, planar_mwpm_decode rows cols (syndrome_of S e) = Some r /\ length r = (n + n)%nat /\
+            syndrome_of S r = syndrome_of S e /\ in_spanP (n + n) S (xorv r e).
+Proof.
+  intros Hr Hc e n S He Wx Wz. destruct (planar_perfect_matching_exists rows cols Hr Hc e He) as [Ep Ed].
+  exact (planar_mwpm_corrects_mates rows cols Hr Hc e _ _ He Wx Wz (matcher_contract _ _ Ep) (matcher_contract _ _ Ed)).
+Qed.
+End WithMatcher.
 
+(* step (1) of the classical argument under the name used in the task description *)
+Definition defects_matching_le_weight := cheap_matching.
+
+(* ------------------------------------------------------------------ *)
+(** * Closed statements for all sizes (C14, planar part)                *)
+(* ------------------------------------------------------------------ *)
+Definition planar_mwpm_corrects_statement : Prop :=
+  forall rows cols, 2 <= rows -> 2 <= cols -> forall (e : bsf) (mwp mwd : wmates),
+    let n := planar_n rows cols in let S := stabs (planar_code rows cols) in
+    length e = (n + n)%nat ->
+    Z.of_nat (count_true (firstn n e)) <= (Z.min rows cols - 1) / 2 ->
+    Z.of_nat (count_true (skipn n e)) <= (Z.min rows cols - 1) / 2 ->
+    let syn := syndrome_of S e in
+    min_perfect_in (primal_graph rows cols syn) (primal_nodes rows cols syn) mwp ->
+    min_perfect_in (dual_graph rows cols syn) (dual_nodes rows cols syn) mwd ->
+    exists r, mwpm_recovery rows cols (unw mwp ++ unw mwd) = Some r /\ in_spanP (n + n) S (xorv r e).
+Theorem planar_mwpm_corrects_all : planar_mwpm_corrects_statement.
+Proof.
+  intros rows cols Hr Hc e mwp mwd n S He Wx Wz syn Mp Md.
+  destruct (planar_mwpm_corrects rows cols Hr Hc e mwp mwd He Wx Wz Mp Md) as (r & R1 & _ & _ & R4). eauto.
+Qed.
+
+(* ------------------------------------------------------------------ *)
+(** * Non-vacuity: a 3x3 lattice, X in the bulk and Z in a corner       *)
+(* ------------------------------------------------------------------ *)
+Lemma wtotal_member (mw : wmates) t : (forall u, In u mw -> 0 <= snd u) -> In t mw -> snd t <= wtotal mw.
+Proof.
+  induction mw as [|u mw IH]; intros Hp Hin; [destruct Hin|]. cbn [wtotal fold_right]. fold (wtotal mw).
+  assert (0 <= wtotal mw).
+  { clear IH Hin. induction mw as [|v mw IH]; [cbn; lia|]. cbn [wtotal fold_right]. fold (wtotal mw).
+    pose proof (Hp v ltac:(cbn; auto)). specialize (IH ltac:(intros x [Hx|Hx]; apply Hp; cbn; auto)). lia. }
+  pose proof (Hp u ltac:(cbn; auto)). destruct Hin as [->|Hin]; [lia|]. specialize (IH ltac:(intros; apply Hp; cbn; auto) Hin). lia.
+Qed.
+(* every perfect matching must cover node a, and every edge at a weighs at least c *)
+Lemma perfect_lower_bound g nodes a c : (forall x y w, In (x, y, Some w) g -> 0 <= w) ->
+  (forall x y w, In (x, y, Some w) g -> x = a \/ y = a -> c <= w) -> In a nodes ->
+  forall mw, perfect_in g nodes mw -> c <= wtotal mw.
+Proof.
+  intros Hpos Ha Hin mw [Pm Hd].
+  assert (Hnn : forall u, In u mw -> 0 <= snd u).
+  { intros [[x y] w] Hu. cbn [snd]. destruct (Hd x y w Hu) as [H|H]; eapply Hpos; eauto. }
+  assert (Hm : In a (ends2 (unw mw))) by (eapply Permutation_in; [apply Permutation_sym; exact Pm|exact Hin]).
+  unfold ends2 in Hm. apply in_flat_map in Hm. destruct Hm as ([x y] & Hxy & Hax). unfold unw in Hxy. apply in_map_iff in Hxy.
+  destruct Hxy as ([[x' y'] w] & E & Ht). cbn [fst] in E. injection E as -> ->. cbn [fst snd] in Hax.
+  pose proof (wtotal_member mw _ Hnn Ht) as Hw. cbn [snd] in Hw.
+  assert (c <= w); [|lia].
+  destruct (Hd x y w Ht) as [H|H]; apply (Ha _ _ _ H); destruct Hax as [<-|[<-|[]]]; auto.
+Qed.
+
+Example planar_mwpm_corrects_ex :
+  let e := p_to_bsf (site 3 3 pX (2, 2) (site 3 3 pZ (0, 0) (new_pauli 3 3))) in
+  let S := stabs (planar_code 3 3) in
+  let syn := syndrome_of S e in
+  let mwp : wmates := [((1, 2), (3, 2), 1); ((-1, 2), (5, 2), 0)] in
+  let mwd : wmates := [((0, 1), (0, -1), 1)] in
+  primal_graph 3 3 syn = [((1, 2), (-1, 2), Some 1); ((3, 2), (5, 2), Some 1); ((1, 2), (3, 2), Some 1); ((-1, 2), (5, 2), Some 0)] /\
+  dual_graph 3 3 syn = [((0, 1), (0, -1), Some 1)] /\
+  length e = 26%nat /\ Z.of_nat (xweight 3 3 e) <= tcap 3 3 /\ Z.of_nat (zweight 3 3 e) <= tcap 3 3 /\
+  min_perfect_in (primal_graph 3 3 syn) (primal_nodes 3 3 syn) mwp /\
+  min_perfect_in (dual_graph 3 3 syn) (dual_nodes 3 3 syn) mwd /\
+  (* a heavier perfect matching of the primal graph: minimality is a real constraint *)
+  perfect_in (primal_graph 3 3 syn) (primal_nodes 3 3 syn) [((1, 2), (-1, 2), 1); ((3, 2), (5, 2), 1)] /\
+  exists r, mwpm_recovery 3 3 (unw mwp ++ unw mwd) = Some r /\ in_spanP 26 S (xorv r e).
+Proof.
+  intros e S syn mwp mwd.
+  assert (Egp : primal_graph 3 3 syn = [((1, 2), (-1, 2), Some 1); ((3, 2), (5, 2), Some 1); ((1, 2), (3, 2), Some 1); ((-1, 2), (5, 2), Some 0)])
+    by (vm_compute; reflexivity).
+  assert (Egd : dual_graph 3 3 syn = [((0, 1), (0, -1), Some 1)]) by (vm_compute; reflexivity).
+  assert (Enp : primal_nodes 3 3 syn = [(1, 2); (3, 2); (-1, 2); (5, 2)]) by (vm_compute; reflexivity).
+  assert (End_ : dual_nodes 3 3 syn = [(0, 1); (0, -1)]) by (vm_compute; reflexivity).
+  assert (Le : length e = 26%nat) by (vm_compute; reflexivity).
+  assert (Wx : Z.of_nat (xweight 3 3 e) <= tcap 3 3) by (vm_compute; discriminate).
+  assert (Wz : Z.of_nat (zweight 3 3 e) <= tcap 3 3) by (vm_compute; discriminate).
+  assert (Pp : perfect_in (primal_graph 3 3 syn) (primal_nodes 3 3 syn) mwp).
+  { rewrite Egp, Enp. split; [apply Permutation_refl|]. intros a b w Hin. cbn in Hin.
+    destruct Hin as [E|[E|[]]]; injection E as <- <- <-; cbn; auto 10. }
+  assert (Pd : perfect_in (dual_graph 3 3 syn) (dual_nodes 3 3 syn) mwd).
+  { rewrite Egd, End_. split; [apply Permutation_refl|]. intros a b w Hin. cbn in Hin.
+    destruct Hin as [E|[]]; injection E as <- <- <-; cbn; auto 10. }
+  assert (Mp : min_perfect_in (primal_graph 3 3 syn) (primal_nodes 3 3 syn) mwp).
+  { split; [exact Pp|]. intros mw' H'. change (wtotal mwp) with 1.
+    apply (perfect_lower_bound (primal_graph 3 3 syn) (primal_nodes 3 3 syn) (1, 2)); auto.
+    - rewrite Egp. intros x y w Hin. cbn in Hin. destruct Hin as [E|[E|[E|[E|[]]]]]; injection E as <- <- <-; lia.
+    - rewrite Egp. intros x y w Hin. cbn in Hin.
+      destruct Hin as [E|[E|[E|[E|[]]]]]; injection E as <- <- <-; intros [D|D]; try discriminate D; lia.
+    - rewrite Enp. cbn; auto. }
+  assert (Md : min_perfect_in (dual_graph 3 3 syn) (dual_nodes 3 3 syn) mwd).
+  { split; [exact Pd|]. intros mw' H'. change (wtotal mwd) with 1.
+    apply (perfect_lower_bound (dual_graph 3 3 syn) (dual_nodes 3 3 syn) (0, 1)); auto.
+    - rewrite Egd. intros x y w Hin. cbn in Hin. destruct Hin as [E|[]]; injection E as <- <- <-; lia.
+    - rewrite Egd. intros x y w Hin. cbn in Hin. destruct Hin as [E|[]]; injection E as <- <- <-; intros _; lia.
+    - rewrite End_. cbn; auto. }
+  split; [exact Egp|]. split; [exact Egd|]. split; [exact Le|]. split; [exact Wx|]. split; [exact Wz|].
+  split; [exact Mp|]. split; [exact Md|]. split.
+  - rewrite Egp, Enp. split.
+    + cbn. apply perm_skip. apply perm_swap.
+    + intros a b w Hin. cbn in Hin. destruct Hin as [E|[E|[]]]; injection E as <- <- <-; cbn; auto 10.
+  - destruct (planar_mwpm_corrects 3 3 ltac:(lia) ltac:(lia) e mwp mwd Le Wx Wz Mp Md) as (r & R1 & _ & _ & R4). eauto.
+Qed.
+
+Print Assumptions planar_mwpm_corrects.
+Print Assumptions planar_mwpm_corrects_mates.
+Print Assumptions planar_mwpm_corrects_all.
+Print Assumptions planar_mwpm_decode_corrects.
+Print Assumptions planar_mwpm_corrects_ex.
